@@ -145,6 +145,51 @@ func checkForwarders(r *core.Result, prog *core.Program, pk *packages.Package, r
 			// returns
 			var bad []string
 			forwardReturns(info, fam, cc.Body, table[fam], &bad, prog)
+			// the result of the runtime call is handed on, not dropped
+			armParents := map[ast.Node]ast.Node{}
+			for _, st := range cc.Body {
+				for k, v := range parentMap(st) {
+					armParents[k] = v
+				}
+			}
+			for _, st := range cc.Body {
+				ast.Inspect(st, func(n ast.Node) bool {
+					c, ok := n.(*ast.CallExpr)
+					if !ok {
+						return true
+					}
+					fn := staticCallee(info, c)
+					if cf, ok := calleeFamily(fn); !ok || cf != fam {
+						return true
+					}
+					wanted := false
+					for _, w := range table[fam] {
+						if fn.Name() == w {
+							wanted = true
+						}
+					}
+					sig, _ := fn.Type().(*types.Signature)
+					if !wanted || sig == nil || sig.Results().Len() == 0 || f.Decl.Type.Results == nil {
+						return true
+					}
+					// result of an error-only call that is tested counts as used
+					switch p := armParents[c].(type) {
+					case *ast.ExprStmt:
+						bad = append(bad, prog.Pos(c.Pos())+": the result of "+types.ExprString(c.Fun)+" is dropped")
+					case *ast.AssignStmt:
+						allBlank := true
+						for _, l := range p.Lhs {
+							if id, ok := l.(*ast.Ident); !ok || id.Name != "_" {
+								allBlank = false
+							}
+						}
+						if allBlank {
+							bad = append(bad, prog.Pos(c.Pos())+": the result of "+types.ExprString(c.Fun)+" is assigned to _")
+						}
+					}
+					return true
+				})
+			}
 			r.Ob(rule, armName+" returns what the runtime call produced", prog.Pos(cc.Pos()), len(bad) == 0,
 				"a return of the arm hands back something other than the result of the runtime call (or the documented descriptor-mismatch result): "+strings.Join(bad, "; "))
 		}
@@ -216,8 +261,14 @@ func forwardPreambleOK(info *types.Info, name string, st ast.Stmt, msgVars map[t
 		}
 		return false
 	case *ast.ReturnStmt:
-		// trailing return of a zero result after the switch (RangeExtensions style) is not used by the listed functions
-		return false
+		// a return after the switch stands for its default arm: the documented result for unsupported values / a
+		// descriptor of the wrong kind, i.e. zero values and, where the function has one, a freshly built error
+		for _, e := range x.Results {
+			if !zeroOrNewError(info, e) {
+				return false
+			}
+		}
+		return true
 	case *ast.ExprStmt:
 		// ClearExtension ends with the documented panic for a descriptor of the wrong kind
 		if c, ok := x.X.(*ast.CallExpr); ok {
@@ -742,4 +793,33 @@ func checkRangeExtensions(r *core.Result, prog *core.Program, pk *packages.Packa
 			r.Ob("E4", "RangeExtensions :: case "+cname+" stops at the callback's first error", prog.Pos(cc.Pos()), okStop, "the visitor must return `err == nil` (continue only while the callback succeeded)")
 		}
 	}
+}
+
+// zeroOrNewError: false, nil, 0, "", a sentinel error variable, or an error built by fmt.Errorf / errors.New.
+func zeroOrNewError(info *types.Info, e ast.Expr) bool {
+	e = ast.Unparen(e)
+	if isNilIdent(e) {
+		return true
+	}
+	if tv, ok := info.Types[e]; ok && tv.Value != nil {
+		switch tv.Value.ExactString() {
+		case "false", "0", `""`:
+			return true
+		}
+		return false
+	}
+	t := info.TypeOf(e)
+	if t == nil || t.String() != "error" {
+		return false
+	}
+	switch x := e.(type) {
+	case *ast.Ident:
+		v, ok := info.Uses[x].(*types.Var)
+		return ok && v.Parent() == v.Pkg().Scope()
+	case *ast.CallExpr:
+		if fn := staticCallee(info, x); fn != nil && fn.Pkg() != nil {
+			return fn.Pkg().Path() == "fmt" && fn.Name() == "Errorf" || fn.Pkg().Path() == "errors" && fn.Name() == "New"
+		}
+	}
+	return false
 }
